@@ -281,4 +281,75 @@ theorem scan_locates_flat (pre : List (Bytes × Bytes)) (K sK : Bytes) (post : L
       simp [e4]
     exact List.append_cancel_right (e1.trans (e2.trans e3))
 
+
+/-! ### splice = structural edit, for a member of a flat-prefixed object -/
+
+theorem cmp_end_same (K : Bytes) : compareLoc (keyLoc .endOfValue K) (keyLoc .endOfValue K) = 0 := by
+  simp [cmp_same, compareTypes]
+
+theorem cmp_start_end (K : Bytes) : compareLoc (keyLoc .startOfValue K) (keyLoc .endOfValue K) = -1 := by
+  simp [cmp_same, compareTypes]
+
+theorem doneTail_afterVal (post : List (Bytes × JsonVal)) (tail : Bytes) :
+    doneTail .endOfValue (afterVal post tail) = afterVal post tail := by
+  cases post <;> simp [afterVal, doneTail]
+
+/-- from the value of `K`, `AdvanceToLocation(K, endOfValue)` passes exactly the value -/
+theorem advance_to_end (done K sK : Bytes) (post : List (Bytes × JsonVal)) (tail : Bytes) (hs : valScans sK) :
+    advanceTo (atValue done K sK post tail) (keyLoc .endOfValue K) false =
+      .ok (true, atEnd (sK.reverse ++ done) K post tail) := by
+  unfold advanceTo
+  have hf : 2 * (atValue done K sK post tail).size + 16 = (2 * (atValue done K sK post tail).size + 14) + 1 + 1 := by omega
+  rw [hf, advanceToGo]
+  have hc0 : compareLoc (atValue done K sK post tail).path (keyLoc .endOfValue K) = -1 := by
+    simpa [atValue, keyLoc] using cmp_start_end K
+  simp only [hc0, show ((-1 : Int) < 0) from by decide, if_true, adv_value done K sK post tail hs]
+  rw [advanceToGo]
+  have hc1 : compareLoc (atEnd (sK.reverse ++ done) K post tail).path (keyLoc .endOfValue K) = 0 := by
+    simpa [atEnd, keyLoc] using cmp_end_same K
+  simp [hc1]
+
+/-- **lookup**: the stored-text lookup of member `K` returns exactly the value's text -/
+theorem iLookup_flat (pre : List (Bytes × Bytes)) (K sK : Bytes) (post : List (Bytes × JsonVal))
+    (hpre : FlatPre K pre) (hK : keyScans K) (hs : valScans sK) :
+    iLookup (serialize (.obj (membersFrom pre K sK post))) (keyLoc .startOfValue K) = .ok (some sK) := by
+  obtain ⟨done', hfind, _⟩ := scan_locates_flat pre K sK post hpre hK
+  unfold iLookup
+  rw [hfind]
+  simp only [nextValue, atValue, ne_eq, not_true_eq_false, if_false]
+  have hadv := adv_value done' K sK post [] hs
+  simp only [atValue] at hadv
+  simp only [Loc.withState, hadv]
+  have hgo : ∀ f, nextValueGo (keyLoc .endOfValue K) (f + 1) (atEnd (sK.reverse ++ done') K post []) =
+      .ok (atEnd (sK.reverse ++ done') K post []) := by
+    intro f
+    have hc1 : compareLoc (atEnd (sK.reverse ++ done') K post []).path (keyLoc .endOfValue K) = 0 := by
+      simpa [atEnd, keyLoc] using cmp_end_same K
+    simp [nextValueGo, hc1]
+  have hsz : ∃ f, 2 * (Scanner.size { done := done', rest := sK ++ afterVal post [], path := { st := .startOfValue, elems := [objElem K] } }) + 16 = f + 1 :=
+    ⟨_, rfl⟩
+  obtain ⟨f, hf⟩ := hsz
+  simp only [keyLoc] at hgo
+  rw [hf, hgo f]
+  simp [atEnd]
+
+/-- **replace / set of an existing member**: the splice writes the new value's text in place of the old
+one, everything else untouched -/
+theorem iReplace_flat (pre : List (Bytes × Bytes)) (K sK : Bytes) (post : List (Bytes × JsonVal)) (v : Bytes)
+    (hpre : FlatPre K pre) (hK : keyScans K) (hs : valScans sK) :
+    iReplace (serialize (.obj (membersFrom pre K sK post))) (keyLoc .startOfValue K) v =
+      .ok (0x7b :: (preText pre ++ (0x22 :: K ++ [0x22, 0x3a])) ++ v ++ afterVal post [], true) ∧
+    iSet (serialize (.obj (membersFrom pre K sK post))) (keyLoc .startOfValue K) v =
+      .ok (0x7b :: (preText pre ++ (0x22 :: K ++ [0x22, 0x3a])) ++ v ++ afterVal post [], true) := by
+  obtain ⟨done', hfind, hdone⟩ := scan_locates_flat pre K sK post hpre hK
+  have hrep : replaceInto (keyLoc .startOfValue K) (atValue done' K sK post []) v =
+      .ok (0x7b :: (preText pre ++ (0x22 :: K ++ [0x22, 0x3a])) ++ v ++ afterVal post [], true) := by
+    unfold replaceInto
+    have : (keyLoc .startOfValue K).withState .endOfValue = keyLoc .endOfValue K := rfl
+    rw [this, advance_to_end done' K sK post [] hs]
+    simp only [prefixOf, restOf, atValue, atEnd, hdone, doneTail_afterVal]
+  constructor
+  · unfold iReplace; rw [hfind]; simp only [if_true]; exact hrep
+  · unfold iSet; rw [hfind]; simp only [if_true]; exact hrep
+
 end DoltVerif.JsonDoc
